@@ -32,6 +32,17 @@ impl Universe {
 }
 
 pub fn one_lookup(net: &mut Net, b: u64, n: usize, kind: &str, target: [u8; 20]) -> Value {
+    one_lookup_opts(net, b, n, kind, target, false)
+}
+
+/// `watch`: every delivery to the node is bracketed by snapshots, and only the responses its socket ACCEPTED (request still in
+/// the in-flight table, sent to that address, younger than the request timeout of that instant) count as answers: for
+/// networks in which round trips exceed the request timeout and the adaptive timeout moves.
+pub fn one_lookup_opts(net: &mut Net, b: u64, n: usize, kind: &str, target: [u8; 20], watch: bool) -> Value {
+    if watch {
+        net.sim.watch = Some(n);
+        net.sim.watch_log.clear();
+    }
     let snap0 = net.sim.snapshot(n);
     let t_start = net.sim.now_ns();
     let log0 = net.sim.log.len();
@@ -65,7 +76,21 @@ pub fn one_lookup(net: &mut Net, b: u64, n: usize, kind: &str, target: [u8; 20])
     let end = call.done_ns().unwrap_or(net.sim.now_ns());
     net.sim.run_for(1500);
     let tmax = net.sim.snapshot(n).map(|s| s.inflight.timeout_ns).unwrap_or(500 * MS);
-    let tr = lookup_trace(&net.sim, n, &target, log0, end);
+    let accepted: Option<std::collections::HashSet<u64>> = if watch {
+        Some(net.sim.watch_log.iter().filter(|w| {
+            let tid = crate::krpc::Msg::parse(&w.wire.bytes).and_then(|m| m.tid_u32());
+            match tid {
+                Some(t) => w.pre.inflight.entries.iter().any(|(et, addr, age)| *et == t && *addr == w.wire.from.to_string() && *age < w.pre.inflight.timeout_ns),
+                None => false,
+            }
+        }).map(|w| w.wire.id).collect())
+    } else {
+        None
+    };
+    if watch {
+        net.sim.watch = None;
+    }
+    let tr = crate::net::lookup_trace_accepted(&net.sim, n, &target, log0, end, accepted.as_ref());
     let answered: Vec<Value> = tr.answered.iter().map(|(e, t)| json!([u.idx(e), (t - t_start) / MS])).collect();
     let listed: Vec<usize> = tr.listed.iter().map(|e| u.idx(e)).collect();
     let bearers: Vec<usize> = tr.token_bearers.iter().map(|e| u.idx(e)).collect();
@@ -211,6 +236,86 @@ fn chain(b: &mut u64, seed: u64, out: &mut Out, rng: &mut Rng, rounds: u64) {
     }
 }
 
+/// One real client among fake peers with SLOW links: every peer has its own fixed answer delay (20 ms .. 1.5 s, many above the
+/// initial 500 ms request timeout), lists the one or two peers just closer than itself (a tree towards the target), so that
+/// requests expire, late answers stretch the adaptive timeout, and answers arrive for requests that looked expired a moment
+/// ago. Only what the socket accepted counts as an answer (watch mode).
+fn slowtree(b: &mut u64, seed: u64, out: &mut Out, rng: &mut Rng, rounds: u64) {
+    use crate::fakenet::*;
+    use crate::krpc;
+    use crate::sim::*;
+    for r in 0..rounds {
+        let target = rng.id();
+        let n = if r % 2 == 1 { rng.range(18, 24) as usize } else { rng.range(6, 14) as usize };
+        let ids: Vec<[u8; 20]> = (0..n)
+            .map(|i| {
+                let p = 16 + 6 * i;
+                let mut id = rng.id();
+                for bit in 0..p {
+                    let (by, m) = (bit / 8, 0x80u8 >> (bit % 8));
+                    id[by] = (id[by] & !m) | (target[by] & m);
+                }
+                let (by, m) = (p / 8, 0x80u8 >> (p % 8));
+                id[by] = (id[by] & !m) | (!target[by] & m);
+                id
+            })
+            .collect();
+        let mut delays: Vec<u64> = (0..n).map(|_| *rng.pick(&[20u64, 20, 350, 350, 600, 900, 1100, 1300, 1500])).collect();
+        let mut fan: Vec<Vec<usize>> = (0..n).map(|i| {
+            let mut v = vec![];
+            for k in 1..=3usize {
+                if i + k < n && (k == 1 || rng.chance(1, 2)) {
+                    v.push(i + k);
+                }
+            }
+            v
+        }).collect();
+        if r % 2 == 1 {
+            // SPINE variant: a spine of peers answering after 350 ms keeps the lookup alive for seconds; every spine peer also
+            // lists a SLOW side peer (1.1 .. 1.5 s), and every side peer lists a leaf nobody else lists. The first slow answer
+            // comes too late but stretches the timeout; later slow answers then arrive for requests that had looked expired.
+            let m = n / 3;
+            for j in 0..m {
+                delays[3 * j] = 350;
+                delays[3 * j + 1] = *rng.pick(&[1100u64, 1200, 1300, 1500]);
+                delays[3 * j + 2] = 20;
+                fan[3 * j] = if j + 1 < m { vec![3 * (j + 1), 3 * j + 1] } else { vec![3 * j + 1] };
+                fan[3 * j + 1] = vec![3 * j + 2];
+                fan[3 * j + 2] = vec![];
+            }
+            for i in 3 * m..n {
+                delays[i] = 20;
+                fan[i] = vec![];
+            }
+        }
+        let mut sim = Sim::new(seed ^ (r * 41 + 17), NetCfg { lat_min_ms: 5, lat_max_ms: 5, ..Default::default() });
+        sim.record = true;
+        let all: Vec<([u8; 20], SocketAddrV4)> = ids.iter().enumerate().map(|(i, id)| (*id, SocketAddrV4::new(fake_ip(i), 6881))).collect();
+        let (delays2, fan2) = (delays.clone(), fan.clone());
+        let policy: Policy = Box::new(move |me, m, wi| {
+            let q = m.q.clone().unwrap_or_default();
+            let on_target = m.target() == Some(target);
+            let listed: Vec<([u8; 20], SocketAddrV4)> = if on_target { fan2[me.idx].iter().map(|&j| all[j]).collect() } else { vec![all[0]] };
+            let nodes = krpc::compact_nodes(&listed);
+            let d = if on_target { delays2[me.idx] } else { 10 };
+            let b = match q.as_str() {
+                "find_node" => lookup_reply(&nodes, me, m, wi, &[], false),
+                "get" | "get_peers" | "get_signed_peers" => lookup_reply(&nodes, me, m, wi, &[], true),
+                _ => krpc::response(&m.tid, &me.id, crate::bencode::B::dict(), Some(&wi.from)),
+            };
+            Reply::One(b, d)
+        });
+        let fnet = FakeNet::install(&mut sim, &ids, policy);
+        let c = sim.add_node(NodeOpts::client(private_ip(3), &[fnet.bootstrap()[0].clone()]));
+        sim.run_for(2500);
+        let mut net = Net { sim, servers: vec![], clients: vec![c], boot: vec![], spec: NetSpec { servers: n, clients: 1, plan: "private".into(), join: "slowtree".into(), dead_bootstrap: 0, seed } };
+        let kind = ["find_node", "immutable", "closest", "peers"][r as usize % 4];
+        let ev = one_lookup_opts(&mut net, *b, c, kind, target, true);
+        out.line(&ev);
+        *b += 1;
+    }
+}
+
 /// One real client among fake peers on PUBLIC addresses, where BEP42 matters: more than 20 peers with ids that are not
 /// valid for their IP but XOR-close to the target, and a chain of BEP42-secure peers that are XOR-far from it and are
 /// learned one at a time, after the lookup already holds more than 20 candidates. Secure ids order first, so every secure
@@ -330,6 +435,7 @@ pub fn run(args: &Args) -> i32 {
         crafted(&mut b, seed, &mut out, &mut rng, if thorough { 60 } else { 10 });
         chain(&mut b, seed, &mut out, &mut rng, if thorough { 140 } else { 28 });
         mixed(&mut b, seed, &mut out, &mut rng, if thorough { 90 } else { 18 });
+        slowtree(&mut b, seed, &mut out, &mut rng, if thorough { 600 } else { 80 });
     }
     out.finish();
     if let Some(p) = args.get("summary") {
